@@ -12,6 +12,7 @@ import (
 
 	"verif/internal/bind"
 	"verif/internal/gen"
+	"verif/internal/mon"
 	"verif/internal/ref"
 	"verif/internal/schema"
 	"verif/internal/val"
@@ -56,7 +57,7 @@ func setKeyField(msg any, field string, key any) {
 
 func c12(e *Env) {
 	r := e.R
-	r.Rule("all 18 discriminator tables. Registered keys (226): decode of a reference-built image (into a fresh receiver and into a receiver that just decoded another member of the same table, followed by an unregistered key into that same receiver), encode-fill with a nil body/extension where the encoder fills (BjseBinary and the 13 extended messages), public factory; bodies: zero and 3..20 canonical values. Unregistered keys: factory probed on the whole u16 space, on every u32 key < 2^20 (thorough 2^24), every key within Hamming distance <= 2 or one decimal-digit edit of a registered key, byte-swapped registered keys and 10^5 (thorough 10^7) random others; string tables on every string of length <= 3 over {0-9,space,NUL,'A',0xFF} plus every single-byte edit of a registered key over all 256 byte values (thorough: ALL byte strings of length <= 3, 16.8 M per table); decode and encode-fill probed on a sample of those keys. distinct_nontrivial = distinct (table, key) pairs probed")
+	r.Rule("all 18 discriminator tables. Registered keys (226): decode of a reference-built image (into a fresh receiver and into a receiver that just decoded another member of the same table, followed by an unregistered key into that same receiver), encode-fill with a nil body/extension where the encoder fills (BjseBinary and the 13 extended messages), public factory; bodies: zero and 3..20 canonical values. Unregistered keys: factory probed on the whole u16 space, on every u32 key < 2^20 (thorough 2^24), every key within Hamming distance <= 2 or one decimal-digit edit of a registered key, byte-swapped registered keys and 10^5 (thorough 10^7) random others; string tables on every string of length <= 3 over {0-9,space,NUL,'A',0xFF,'-','+'} plus every single-byte edit of a registered key over all 256 byte values (thorough: ALL byte strings of length <= 3, 16.8 M per table); decode and encode-fill probed on a sample of those keys. distinct_nontrivial = distinct (table, key) pairs probed")
 	r.Explain("Oracle: the pinned key→type tables (frozen at the baseline commit). Registered key ⇒ decoder builds exactly the pinned type (reflect type identity) and the value round-trips; encoder fills exactly that type and its bytes equal the reference rendering with a zero body; factory returns that type. Unregistered key ⇒ factory returns (nil, error); Decode returns an error without panicking and leaves the body nil/unchanged; encode-fill returns an error; frames that do not fill (SSE, SZSE, risk, sample root) encode a nil body as an empty body and do not invent one. The set of keys a factory answers is thus compared with the pinned set in both directions.")
 	r.Assume("u32 key spaces are swept exhaustively only below 2^20/2^24 (every registered number is < 2^20); the rest is sampled")
 	tcs := e.tableCtxs()
@@ -220,7 +221,16 @@ func c12(e *Env) {
 		tb := tc.tb
 		atomic.AddInt64(&probes, 1)
 		_, reg := tb.ByKey[key]
-		got, err := tc.factory(key)
+		var got codec.BinaryCodec
+		err, fp := mon.Call(func() error {
+			var e2 error
+			got, e2 = tc.factory(key)
+			return e2
+		})
+		if fp != nil {
+			r.Violate(fmt.Sprintf("C12/factory-panics/%s", tb.QName), "C12/factory-panics/"+tb.QName, map[string]any{"type": tc.owner.QName, "table": tb.QName, "key": fmtKey(key), "panic": fp.Value, "stack": fp.Stack})
+			return
+		}
 		if reg {
 			return // judged above
 		}
@@ -335,7 +345,7 @@ func c12(e *Env) {
 				probe(tc, rng.U64()&0xFFFFFFFF, i%50021 == 0)
 			}
 		case "str-small":
-			alpha := []byte("0123456789 \x00A\xff")
+			alpha := []byte("0123456789 \x00A\xff-+")
 			var rec func(prefix []byte, depth int)
 			n := 0
 			rec = func(prefix []byte, depth int) {
